@@ -50,6 +50,10 @@ inductive Raise where
   | readError
   /-- `Error("fmt {}", args…)`: variadic formatting ctor → `EXIT_FAILURE` -/
   | fmtError
+  /-- `Error("… {} …", n)` with a *single `int` argument* (`nl-reader.h` "function {} is not defined",
+      `expr.h` "function {} is already defined"): overload resolution prefers the non-template
+      `Error(CStringRef msg, int c)`, so `n` becomes the exit code (and the message stays unformatted) -/
+  | fmtIntArg (n : Int)
   /-- `fmt::SystemError` (cannot open/map a file): *not* an `mp::Error` -/
   | systemError
   /-- any other `std::exception` (`std::runtime_error`, `std::bad_alloc`, `std::out_of_range` …) -/
@@ -81,6 +85,7 @@ def Raise.toExn : Raise → Exn
   | .optionError => .mpError (-1)
   | .readError => .mpError EXIT_FAILURE
   | .fmtError => .mpError EXIT_FAILURE
+  | .fmtIntArg n => .mpError n
   | .systemError => .stdExn
   | .stdExn => .stdExn
   | .foreign => .foreign
